@@ -75,6 +75,13 @@ def run_case(case):
     ref = common.make_traj(rR, rp, None, storage)
     ref_snap = common.snapshot(ref)
     est_snap = common.snapshot(est)
+    # a second object built from the very same pose matrices (a second handle
+    # on the unaligned estimate): aligning the estimate must not reach it
+    observer = obs_snap = None
+    if storage.startswith("se3"):
+        from evo.core.trajectory import PosePath3D
+        observer = PosePath3D(poses_se3=list(est.poses_se3))
+        obs_snap = common.snapshot(observer)
     msgs = []
     info = {}
     m = N if n == -1 else n
@@ -99,6 +106,9 @@ def run_case(case):
     info["outcome"] = mode
     if common.snapshot(ref) != ref_snap:
         msgs.append("alignment modified the reference")
+    if observer is not None and common.snapshot(observer) != obs_snap:
+        msgs.append("alignment modified another object that was built from "
+                    "the same pose matrices as the estimate")
     v = common.views(est)
     if v["n"] != N:
         return ["alignment changed the number of poses"], info
